@@ -6,6 +6,7 @@ CONSTANTS
   MaxRuns = 3
   MaxClr = 1
   Dev = {"repeat_from_due"}
+  Slows = {0}
   Export = FALSE
 INIT Init
 NEXT Next
